@@ -3,6 +3,7 @@ import itertools, random
 from vcheck import Stream, sx_str
 
 PROPERTY = "C17"
+REGISTRY_PREFIX = ("INPUT.", "OUTPUT.")
 PROPS_VO = ["Props/C17", "Props/C17io"]
 AXIOMS_OK = []
 ASSUMPTIONS = [
